@@ -186,6 +186,77 @@ Proof.
   set (r' := if Nat.eqb (i mod nreset c) 0 then vsub n (mat pos') j else axpy n (- alpha) q (r s)).
   set (gamma := dot n r' r').
   set (e' := energy n r' j pos').
-  Show.
-Admitted.
+  assert (Hlen' : length pos' = n) by apply axpy_length.
+  clearbody e' gamma r' pos' alpha.
+  destruct (Qcleb 0 gamma && Qcleb gamma (tiny c)) eqn:ET.
+  { destruct (thr n j c) as [t|]; destruct (absdelta c) as [ad|]; fin; same_if; fin; same_if; fin; auto. }
+  assert (Hend : forall dd,
+    it {| pos := pos'; r := r'; d := dd; gam := gamma; en := e'; it := i |} = S (it s) /\
+    (if (mxi <=? i)%nat
+     then (Z.of_nat i <? -1)%Z = false /\
+          (if (Z.of_nat i =? -1)%Z then Raised else Done pos' (Z.of_nat i) i) = Done pos' (Z.of_nat i) i
+     else sync {| pos := pos'; r := r'; d := dd; gam := gamma; en := e'; it := i |}
+               {| spos := pos'; sr := r'; sd := dd; sgam := gamma; sen := e'; sit := i; sinfo := -2 |})).
+  { intros. split; [reflexivity|]. destruct (mxi <=? i)%nat.
+    - rewrite Zof_nat_ltb, Zof_nat_eqb. auto.
+    - unfold sync; cbn. repeat split; auto. }
+  destruct (thr n j c) as [t|]; destruct (absdelta c) as [ad|]; fin.
+  - destruct (norm_lt n c r' t && (miniter n c <=? i)%nat) eqn:EN; [fin; same_if; fin; auto|].
+    destruct (Qcltb (en s - e') (- (eps c * Qcabs e'))) eqn:EE; [destruct (raise_npd c); fin; same_if; fin; auto|].
+    destruct (Qcltb (en s - e') ad && (miniter n c <=? i)%nat) eqn:EA; [fin; same_if; fin; auto|].
+    fin. specialize (Hend (axpy n (Qcmax 0 (gamma / gam s)) (d s) r')).
+    destruct (mxi <=? i)%nat; fin; exact Hend.
+  - destruct (norm_lt n c r' t && (miniter n c <=? i)%nat) eqn:EN; [fin; same_if; fin; auto|].
+    destruct (Qcltb (en s - e') (- (eps c * Qcabs e'))) eqn:EE; [destruct (raise_npd c); fin; same_if; fin; auto|].
+    fin. specialize (Hend (axpy n (Qcmax 0 (gamma / gam s)) (d s) r')).
+    destruct (mxi <=? i)%nat; fin; exact Hend.
+  - destruct (Qcltb (en s - e') (- (eps c * Qcabs e'))) eqn:EE; [destruct (raise_npd c); fin; same_if; fin; auto|].
+    destruct (Qcltb (en s - e') ad && (miniter n c <=? i)%nat) eqn:EA; [fin; same_if; fin; auto|].
+    fin. specialize (Hend (axpy n (Qcmax 0 (gamma / gam s)) (d s) r')).
+    destruct (mxi <=? i)%nat; fin; exact Hend.
+  - destruct (Qcltb (en s - e') (- (eps c * Qcabs e'))) eqn:EE; [destruct (raise_npd c); fin; same_if; fin; auto|].
+    fin. specialize (Hend (axpy n (Qcmax 0 (gamma / gam s)) (d s) r')).
+    destruct (mxi <=? i)%nat; fin; exact Hend.
+Qed.
+
+Lemma loop_sim : forall k s v, sync s v -> (it s + k = mxi)%nat -> (1 <= k)%nat ->
+  forall fuel, (k <= fuel)%nat ->
+  option_map result_of (static_loop n mat j c fuel v) = Some (eager_loop n mat j c k s).
+Proof.
+  induction k as [|k IH]; intros s v Hs Hk H1 fuel Hf; [lia|].
+  destruct fuel as [|f]; [lia|].
+  pose proof (step_sim s v Hs) as Hstep.
+  destruct Hs as (Hp & Hr & Hd & Hg & He & Hi & Hinfo & Hlen).
+  cbn [static_loop eager_loop]. rewrite Hinfo. change (-2 <? -1)%Z with true. cbv iota.
+  destruct (body s) as [s' [o|]].
+  - destruct Hstep as [Hnr Hres].
+    destruct f; cbn [static_loop]; rewrite Hnr; cbn [option_map]; now rewrite Hres.
+  - destruct Hstep as [Hit Hstep].
+    destruct (Nat.leb_spec mxi (S (it s))).
+    + destruct Hstep as [Hnr Hres].
+      assert (k = 0)%nat by lia. subst k. cbn [eager_loop].
+      destruct f; cbn [static_loop]; rewrite Hnr; cbn [option_map]; now rewrite Hres.
+    + apply IH; auto; lia.
+Qed.
+
+Theorem equiv : forall x0 fuel,
+  (1 <= mxi)%nat -> (mxi <= fuel)%nat ->
+  (forall x, x0 = Some x -> length x = n) ->
+  run_static n mat j c fuel x0 = run_eager n mat j c x0.
+Proof.
+  intros x0 fuel H1 Hf Hx. unfold run_static, run_eager.
+  destruct (Qceqb (gam (init_st n mat j x0)) 0) eqn:E.
+  - assert (Hi : sinfo (init_sst n mat j x0) = 0%Z) by (unfold init_sst; cbn [sinfo]; now rewrite E).
+    assert (Hl : static_loop n mat j c fuel (init_sst n mat j x0) = Some (init_sst n mat j x0)).
+    { destruct fuel; cbn [static_loop]; rewrite Hi; reflexivity. }
+    rewrite Hl, Hi. reflexivity.
+  - assert (Hs : sync (init_st n mat j x0) (init_sst n mat j x0)).
+    { unfold sync, init_sst; cbn [spos sr sd sgam sen sit sinfo]. rewrite E.
+      do 5 (split; [reflexivity|]). split; [destruct x0; reflexivity|]. split; [reflexivity|].
+      destruct x0 as [x|]; cbn [init_st pos]; [now apply Hx | apply vmk_length]. }
+    assert (H0 : it (init_st n mat j x0) = 0%nat) by (destruct x0; reflexivity).
+    pose proof (loop_sim mxi _ _ Hs ltac:(rewrite H0; reflexivity) H1 fuel Hf) as HL.
+    destruct (static_loop n mat j c fuel (init_sst n mat j x0)) as [v|]; cbn [option_map] in HL; [|discriminate].
+    injection HL as HL. rewrite <- HL. reflexivity.
+Qed.
 End Sim.
